@@ -54,6 +54,8 @@ def replay_case(case, tag, rng, tier):
         # the same system presented differently: equal rows given as ONE row object, rows given as tuples, or the very matrix object
         # that an earlier solve() has already seen (a system is a value: the answer may depend on none of this)
         form = rng.choice(("fresh", "fresh", "shared_rows", "tuple_rows", "solved_before"))
+        if form == "solved_before" and num != "frac":
+            form = "fresh"          # (the matrix left behind by a float elimination is no longer a small-rational system: only exact entries are claimed)
         if form == "shared_rows":
             first = {}
             given = [first.setdefault(tuple(r), r) for r in given]
